@@ -13,7 +13,9 @@ VERSIONS = ["1.4", "1.5", "2.0", "2.1", "2.2"]
 
 def jobs(tier, seed):
     q = tier == "quick"
-    return [{"seed": seed, "i": i, "n": 40 if q else 400} for i in range(32 if q else 96)]
+    out = [{"seed": seed, "i": i, "n": 40 if q else 400} for i in range(32 if q else 96)]
+    out += [{"kind": "locale", "seed": seed, "i": i, "n": 5 if q else 20} for i in range(2 if q else 6)]
+    return out
 
 
 def build_state(rng, version):
@@ -58,23 +60,43 @@ def shape(proj, transient):
     return (min(nn, 6), min(nc, 8), min(nv, 10), flags)
 
 
-def judge_case(res, version, steps, eng, tmp, flavour):
+def judge_case(res, version, steps, eng, tmp, flavour, then=None):
     from mysensors.persistence import Persistence
     from ..drive import projection, strict, transient
     from ..persist import PGateway, transient_empty
 
-    orig = projection(eng.gw.sensors)
-    tr = transient(eng.gw)[0]
-    has_tr = any(q or any(ns.values()) or rb for (q, ns, rb) in tr.values())
     loaded = {}
-    case = {"version": version, "steps": steps, "flavour": flavour}
+    case = {"version": version, "steps": steps, "flavour": flavour, "then": then}
+    savers = {}
     for ext in ("json", "pickle"):
         path = os.path.join(tmp, f"s{os.getpid()}.{ext}")
         for f in (path, path + ".bak"):
             if os.path.exists(f):
                 os.remove(f)
+        savers[ext] = Persistence(eng.gw.sensors, lambda save: (lambda: None), persistence_file=path)
+    if then:
+        # the same Persistence objects save twice: first the state as built, then - after a few more messages that only
+        # touch node-level attributes or repeat values - the state to be judged
+        for ext, pers in savers.items():
+            try:
+                pers.save_sensors()
+            except Exception:
+                pass        # judged by the second save
+        for line in then:
+            try:
+                eng.feed(line)
+            except Exception:
+                break
+        for pers in savers.values():
+            pers.need_save = True
+        res.count("second_saves_after_attribute_changes")
+    orig = projection(eng.gw.sensors)
+    tr = transient(eng.gw)[0]
+    has_tr = any(q or any(ns.values()) or rb for (q, ns, rb) in tr.values())
+    for ext in ("json", "pickle"):
+        path = savers[ext].persistence_file
         try:
-            Persistence(eng.gw.sensors, lambda save: (lambda: None), persistence_file=path).save_sensors()
+            savers[ext].save_sensors()
         except Exception as exc:
             res.violation(f"save-raises:{ext}:{core.exc_sig(exc)}", f"saving a reachable state as {ext} raised {type(exc).__name__}: {exc}", case)
             continue
@@ -113,8 +135,87 @@ def judge_case(res, version, steps, eng, tmp, flavour):
         os.remove(os.path.join(tmp, f))
 
 
+LOCALE_SCRIPT = r"""
+import json, os, sys
+sys.path.insert(0, os.environ["VF_ROOT"])
+from vf import core
+core.use_repo()
+from vf.drive import Engine, projection, strict
+from mysensors.persistence import Persistence
+steps = json.load(open(sys.argv[1], encoding="utf-8"))
+out = {}
+for ext in ("json", "pickle"):
+    eng = Engine("async", steps["version"])
+    for line in steps["lines"]:
+        eng.feed(line)
+    path = os.path.join(sys.argv[2], "loc." + ext)
+    try:
+        Persistence(eng.gw.sensors, lambda save: (lambda: None), persistence_file=path).save_sensors()
+    except Exception as exc:
+        out[ext] = "save-raises:" + type(exc).__name__
+        continue
+    fresh = {}
+    try:
+        Persistence(fresh, lambda save: (lambda: None), persistence_file=path).safe_load_sensors()
+    except Exception as exc:
+        out[ext] = "load-raises:" + type(exc).__name__
+        continue
+    out[ext] = "same" if strict(projection(fresh)) == strict(projection(eng.gw.sensors)) else "differs:%d->%d nodes" % (len(eng.gw.sensors), len(fresh))
+import locale
+out["encoding"] = locale.getpreferredencoding(False)
+print("RESULT " + json.dumps(out))
+"""
+
+
+def run_locale(job, res):
+    """The round trip must not depend on the process locale: the same save + load in a child interpreter whose preferred
+    encoding is not UTF-8 (LC_ALL=C, UTF-8 mode off), with non-ASCII sketch names, descriptions and values."""
+    import json
+    import subprocess
+    import sys
+
+    rng = core.rng_for(ID, "locale", job["seed"], job["i"])
+    tmp = tempfile.mkdtemp(prefix="vf-c11-loc-")
+    try:
+        for k in range(job["n"]):
+            version = VERSIONS[k % 5]
+            lines = []
+            for n in (1, 2, 200):
+                lines += [f"{n};255;0;0;17;{version}", f"{n};255;3;0;11;" + gen.payload(rng, rng.choice(["latin1", "combining", "astral", "rtl"]))[0][:20],
+                          f"{n};1;0;0;6;" + gen.payload(rng, rng.choice(["latin1", "astral", "ascii"]))[0][:20],
+                          f"{n};1;1;0;0;{rng.randint(0, 40)}.5", f"{n};2;0;0;23;x", f"{n};2;1;0;24;" + gen.payload(rng, rng.choice(["latin1", "rtl", "combining"]))[0][:20]]
+            spec_file = os.path.join(tmp, "steps.json")
+            with open(spec_file, "w", encoding="utf-8") as fh:
+                json.dump({"version": version, "lines": lines}, fh)
+            script = os.path.join(tmp, "child.py")
+            with open(script, "w", encoding="utf-8") as fh:
+                fh.write(LOCALE_SCRIPT)
+            env = dict(os.environ, LC_ALL="C", LANG="C", PYTHONUTF8="0", PYTHONIOENCODING="utf-8", VF_ROOT=core.VERIF, PYTHONCOERCECLOCALE="0")
+            r = subprocess.run([sys.executable, "-B", script, spec_file, tmp], capture_output=True, text=True, env=env, timeout=120, encoding="utf-8", errors="replace")
+            line = next((l for l in r.stdout.splitlines() if l.startswith("RESULT ")), None)
+            if line is None:
+                res.notes.append(f"locale child failed: {r.stderr[-300:]}")
+                continue
+            out = json.loads(line[7:])
+            res.evals += 1
+            res.count("locale_round_trips")
+            if "utf" not in out.get("encoding", "").lower().replace("-", ""):
+                res.count("locale_round_trips_under_a_non_utf8_locale")
+            case = {"locale": True, "version": version, "lines": lines, "child_encoding": out.get("encoding")}
+            for ext in ("json", "pickle"):
+                if out.get(ext) != "same":
+                    res.violation(f"locale-roundtrip:{ext}:{out.get(ext, '?').split(':')[0]}",
+                                  f"{ext}: save + load under preferred encoding {out.get('encoding')}: {out.get(ext)}", case)
+            res.nontrivial(("locale", version, k))
+    finally:
+        shutil.rmtree(tmp, ignore_errors=True)
+
+
 def run(job):
     res = Result()
+    if job.get("kind") == "locale":
+        run_locale(job, res)
+        return res
     rng = core.rng_for(ID, job["seed"], job["i"])
     tmp = tempfile.mkdtemp(prefix="vf-c11-")
     try:
@@ -122,7 +223,14 @@ def run(job):
             version = VERSIONS[h % 5]
             eng, steps = build_state(rng, version)
             res.evals += 1
-            judge_case(res, version, steps, eng, tmp, ["sync", "async"][(h // 5) % 2])
+            then = None
+            if h % 3 == 1 and eng.gw.sensors:
+                nodes = [n for n in eng.gw.sensors if isinstance(n, int)][:4]
+                then = []
+                for n in nodes:
+                    then += rng.sample([f"{n};255;3;0;0;{rng.randint(0, 100)}", f"{n};255;3;0;12;v{rng.randint(1, 99)}", f"{n};255;3;0;11;sk{rng.randint(1, 99)}",
+                                        f"{n};255;0;0;{rng.choice([17, 18])};{version}"] + ([f"{n};255;3;0;22;{rng.randint(1, 10**6)}"] if version >= "2.0" else []), 2)
+            judge_case(res, version, steps, eng, tmp, ["sync", "async"][(h // 5) % 2], then)
             if h == 0 and job["i"] == 0:
                 from ..drive import projection
                 res.sample({"version": version, "steps": steps[:12], "nodes": sorted(projection(eng.gw.sensors))})
@@ -135,6 +243,9 @@ def replay(case):
     from ..drive import Engine, PumpDied
 
     res = Result()
+    if case.get("locale"):
+        run_locale({"seed": 0, "i": 0, "n": 3}, res)
+        return res
     tmp = tempfile.mkdtemp(prefix="vf-c11-")
     try:
         eng = Engine("async", case["version"])
@@ -148,7 +259,7 @@ def replay(case):
                     eng.call("fw", s[1], s[2], s[3], bytes.fromhex(s[4]) if s[4] else None)
             except PumpDied:
                 break
-        judge_case(res, case["version"], case["steps"], eng, tmp, case.get("flavour", "sync"))
+        judge_case(res, case["version"], case["steps"], eng, tmp, case.get("flavour", "sync"), case.get("then"))
     finally:
         shutil.rmtree(tmp, ignore_errors=True)
     return res
@@ -164,7 +275,9 @@ def finish(agg, tier):
                 "compared original vs JSON vs pickle; transient state must be empty after load. distinct = structural shape (node / "
                 "child / value counts, None-type / empty-values / empty-description / non-ASCII / id 0 / id 255 / transient flags).",
         "floors": [("loads_judged", c.get("loads_judged", 0), 2000),
-                   ("loads_with_transient_before_save", c.get("loads_with_transient_before_save", 0), 500)],
+                   ("loads_with_transient_before_save", c.get("loads_with_transient_before_save", 0), 500),
+                   ("second_saves_after_attribute_changes", c.get("second_saves_after_attribute_changes", 0), 200),
+                   ("locale_round_trips_under_a_non_utf8_locale", c.get("locale_round_trips_under_a_non_utf8_locale", 0), 8)],
         "assumptions": ["projection = node/child/value tree and node attributes as exposed on gateway.sensors"],
-        "show": ["loads_judged", "loads_with_transient_before_save"],
+        "show": ["loads_judged", "loads_with_transient_before_save", "second_saves_after_attribute_changes", "locale_round_trips_under_a_non_utf8_locale"],
     }
